@@ -505,7 +505,11 @@ namespace Pistache::Tcp
                 break;
 
             auto fd = write->peerFd;
-            if (!isPeerFd(fd))
+            // for a peer that is gone - also when its descriptor number has
+            // been given to a connection accepted meanwhile
+            auto pit = peers.find(fd);
+            if (pit == std::end(peers)
+                || (write->peerId != AnyPeer && pit->second->getID() != write->peerId))
             {
                 if (write->buffer.isFile())
                     ::close(write->buffer.fd());
